@@ -216,7 +216,7 @@ def roots : List Root := [
   ⟨[1], false, true, true, [1], []⟩,  -- 8 audition.startAudition#1 (worker conductor.go:281) runWorker(auCtx, au.stopper, func(ctx context.Context) {
   ⟨[1], true, false, true, [1], []⟩,  -- 9 app.runForAllActors#1[runCleanup$1] (worker conductor.go:376) runWorker(actCtx, ap.stopper, func(ctx context.Context) {
   ⟨[5], true, false, true, [5], []⟩,  -- 10 prompter.runScene#1 (task prompt.go:208) if err := runAsyncTask(lineCtx, pr.stopper, func(ctx context.Context) {
-  ⟨[6], true, false, true, [6], []⟩,  -- 11 spotMgr.manageSpotlights#1 (worker spotlight.go:73) runWorker(spotCtx, spm.stopper, func(ctx context.Context) {
+  ⟨[6], true, false, true, [6], []⟩,  -- 11 spotMgr.manageSpotlights#1 (worker spotlight.go:74) runWorker(spotCtx, spm.stopper, func(ctx context.Context) {
   ⟨[9, 10], false, false, true, [9, 10], []⟩,  -- 12 actor.runActorCommandWithConsumer#1[runActorCommand$1] (go commands.go:157) go func() {
   ⟨[9, 10], true, false, false, [], []⟩,  -- 13 actor.runActorCommandWithConsumer#2[runActorCommand$1] (go commands.go:227) go func() {
   ⟨[9, 10, 11], true, false, false, [], []⟩,  -- 14 runReaderAsync#1 (worker commands.go:379) runWorker(readCtx, stopper, func(ctx context.Context) {
@@ -811,7 +811,7 @@ def g9 : List Access := [
 def g10 : List Access := [
   A 0 10 true false [] false [(1, .pre), (2, .pre), (3, .pre), (4, .pre)],  -- actor.prepareActionCommands commands.go:289 
   A 0 10 false false [] false [(1, .pre), (2, .pre), (3, .pre), (4, .pre)],  -- actor.prepareActionCommands commands.go:290 
-  A 11 10 false false [] true [(14, .pre), (15, .pre), (16, .pre)]  -- spotMgr.spotlight spotlight.go:135 
+  A 11 10 false false [] true [(14, .pre), (15, .pre), (16, .pre)]  -- spotMgr.spotlight spotlight.go:136 
 ]
 
 /-- actor.workDir -/
@@ -1537,10 +1537,10 @@ def g109 : List Access := [
 
 /-- local spotMgr.manageSpotlights.err -/
 def g110 : List Access := [
-  A 6 110 true false [] true [(11, .mid)],  -- spotMgr.manageSpotlights spotlight.go:102 
+  A 6 110 true false [] true [(11, .mid)],  -- spotMgr.manageSpotlights spotlight.go:103 
   A 6 110 false false [] true [(11, .mid)],  -- spotMgr.manageSpotlights ? 
-  A 6 110 true false [] true [],  -- spotMgr.manageSpotlights$1 spotlight.go:53 
-  A 6 110 false false [] true []  -- spotMgr.manageSpotlights$1 spotlight.go:55 
+  A 6 110 true false [] true [],  -- spotMgr.manageSpotlights$1 spotlight.go:54 
+  A 6 110 false false [] true []  -- spotMgr.manageSpotlights$1 spotlight.go:56 
 ]
 
 /-- observer.hasData -/
@@ -1636,11 +1636,11 @@ def g125 : List Access := [
 
 /-- role.sigParsers -/
 def g126 : List Access := [
-  A 15 126 false false [] true [],  -- spotMgr.detectSignals spotlight.go:170 
+  A 15 126 false false [] true [],  -- spotMgr.detectSignals spotlight.go:184 
   A 0 126 false false [] false [(1, .pre), (2, .pre), (3, .pre), (4, .pre)],  -- config.parseRole$1 parsecfg.go:671 
   A 0 126 true false [] false [(1, .pre), (2, .pre), (3, .pre), (4, .pre)],  -- config.parseRole$1 parsecfg.go:671 
   A 0 126 false false [] false [(2, .mid), (3, .mid), (4, .mid)],  -- config.printCfg config.go:353 
-  A 11 126 false false [] true [(14, .mid), (15, .pre), (16, .pre)]  -- spotMgr.detectSignals spotlight.go:170 
+  A 11 126 false false [] true [(14, .mid), (15, .pre), (16, .pre)]  -- spotMgr.detectSignals spotlight.go:184 
 ]
 
 /-- role.sigParsers[] -/
@@ -1657,7 +1657,7 @@ def g128 : List Access := [
   A 0 128 false false [] false [(1, .pre), (2, .pre), (3, .pre), (4, .pre)],  -- actor.prepareActionCommands commands.go:288 
   A 0 128 true false [] false [(1, .pre), (2, .pre), (3, .pre), (4, .pre)],  -- config.parseRole$1 parsecfg.go:602 
   A 0 128 false false [] false [(2, .mid), (3, .mid), (4, .mid)],  -- config.printCfg config.go:350 
-  A 6 128 false false [] true [(11, .mid)]  -- spotMgr.manageSpotlights spotlight.go:64 
+  A 6 128 false false [] true [(11, .mid)]  -- spotMgr.manageSpotlights spotlight.go:65 
 ]
 
 /-- scene.concurrentLines -/
@@ -1696,25 +1696,25 @@ def g133 : List Access := [
 
 /-- sigEvent.values -/
 def g134 : List Access := [
-  A 15 134 false false [] true [],  -- spotMgr.detectSignals spotlight.go:246 
-  A 15 134 true false [] true [],  -- spotMgr.detectSignals spotlight.go:246 
+  A 15 134 false false [] true [],  -- spotMgr.detectSignals spotlight.go:261 
+  A 15 134 true false [] true [],  -- spotMgr.detectSignals spotlight.go:261 
   A 8 134 false false [] true [],  -- audition.audit audit.go:230 
-  A 11 134 false false [] true [(14, .mid), (15, .pre), (16, .pre)],  -- spotMgr.detectSignals spotlight.go:246 
-  A 11 134 true false [] true [(14, .mid), (15, .pre), (16, .pre)]  -- spotMgr.detectSignals spotlight.go:246 
+  A 11 134 false false [] true [(14, .mid), (15, .pre), (16, .pre)],  -- spotMgr.detectSignals spotlight.go:261 
+  A 11 134 true false [] true [(14, .mid), (15, .pre), (16, .pre)]  -- spotMgr.detectSignals spotlight.go:261 
 ]
 
 /-- sigEvent.values[] -/
 def g135 : List Access := [
-  A 15 135 true false [] true [],  -- spotMgr.detectSignals spotlight.go:246 
-  A 11 135 true false [] true [(14, .mid), (15, .pre), (16, .pre)]  -- spotMgr.detectSignals spotlight.go:246 
+  A 15 135 true false [] true [],  -- spotMgr.detectSignals spotlight.go:261 
+  A 11 135 true false [] true [(14, .mid), (15, .pre), (16, .pre)]  -- spotMgr.detectSignals spotlight.go:261 
 ]
 
 /-- sink.lastVal -/
 def g136 : List Access := [
-  A 15 136 false false [] true [],  -- spotMgr.detectSignals spotlight.go:241 
-  A 15 136 true false [] true [],  -- spotMgr.detectSignals spotlight.go:242 
-  A 11 136 false false [] true [(14, .mid), (15, .pre), (16, .pre)],  -- spotMgr.detectSignals spotlight.go:241 
-  A 11 136 true false [] true [(14, .mid), (15, .pre), (16, .pre)]  -- spotMgr.detectSignals spotlight.go:242 
+  A 15 136 false false [] true [],  -- spotMgr.detectSignals spotlight.go:256 
+  A 15 136 true false [] true [],  -- spotMgr.detectSignals spotlight.go:257 
+  A 11 136 false false [] true [(14, .mid), (15, .pre), (16, .pre)],  -- spotMgr.detectSignals spotlight.go:256 
+  A 11 136 true false [] true [(14, .mid), (15, .pre), (16, .pre)]  -- spotMgr.detectSignals spotlight.go:257 
 ]
 
 /-- subreader.lineno -/
